@@ -132,6 +132,9 @@ def rand_map_grid(rng, fmt, channels, dims, kappa=None, dyadic=False):
 def rand_name(rng):
     """distribution names: anything but a line feed - empty, blanks, digits that look like numbers, and control / white-space characters
     (carriage return, tab, vertical tab, form feed) and non-ASCII bytes at the front, inside and at the very end"""
+    if rng.random() < 0.04:
+        # very long names (beyond any fixed-size buffer a reader might use)
+        return (b'pT of the %d-th jet [GeV] ' % rng.randint(1, 9)) * rng.choice([41, 45, 200]) + rng.choice([b'', b' ', b'x'])
     if rng.random() < 0.65:
         return rng.choice([b'', b'x', b'  lead', b'two words ', b'#hash', b'12 34', b'E5'])
     alphabet = [b' ', b'\t', b'\r', b'\v', b'\f', b'#', b'1', b'e', b'pT', b'\xe9', b'\x7f', b'-', b'.']
@@ -192,6 +195,12 @@ def rand_fills(rng, fmt, kind, dists, dims, ntab=24):
         fills.append([j, xs, ys, vs])
         if rng.random() < 0.2:
             fills.append([j, xs, ys, vs])       # the same distribution filled twice in one call
+        if rng.random() < 0.25:
+            # ... and filled again at another coordinate (one entry per particle: several bins of one distribution per evaluation)
+            ex2 = dist_edges(fmt, d, 'x')
+            tables.append(toks(fmt, [rng.choice(ex2) for _ in range(ntab - 1)])); xs2 = ['t', len(tables) - 1]
+            fills.append([j, xs2, ys, vs])
+            if rng.random() < 0.5: fills.append([j, xs, ys, vs])
     return fills, tables
 
 def rand_run(rng, fmt, kind, *, calls=None, iters=None, value_classes=None, dists=None, special_map=False, trace=0, cb=None,
